@@ -2,7 +2,7 @@
 import itertools
 import common
 
-ALPHABET = 'ABELPDgwvrth'   # Refresh A, Refresh B, Refresh invalid-early, Refresh invalid-late, Destroy, log via tag, write via handle, register tag, obtain handle
+ALPHABET = 'ABELPMDgwvrth'   # Refresh A, Refresh B, Refresh invalid-early, Refresh invalid-late, Destroy, log via tag, write via handle, register tag, obtain handle
 
 
 def check(run):
@@ -13,20 +13,20 @@ def check(run):
     for n in range(1, L + 1):
         for t in itertools.product(ALPHABET, repeat=n):
             cases.append(''.join(t))
-    cases += ['LvLwLvLgLvLvLwLv', 'LvLvLvLvLvLvLvLvLvLv', 'ALvDLvBLvDLv', 'PADgPBDwPPAD', 'PDPADBD'] * 4
+    cases += ['LvLwLvLgLvLvLwLv', 'LvLvLvLvLvLvLvLvLvLv', 'ALvDLvBLvDLv', 'PADgPBDwPPAD', 'PDPADBD', 'MAgDMBwD', 'MMDA'] * 4
     for _ in range(300 if quick else 20000):
         cases.append(''.join(rng.choice(ALPHABET) for _ in range(rng.randint(8, 20))))
 
     def nontrivial(c, obs):
         return ('A' in c or 'B' in c) and ('g' in c or 'w' in c or 'r' in c)
     res = common.simple_family_check(run, 'c16', 'c16/sequences', cases, nontrivial,
-        'ALL operation sequences up to length %d over {Refresh(valid sync A), Refresh(valid async B), Refresh(invalid early), Refresh(invalid late: unconfigured handle), Refresh(invalid at the last step: bad property value), Destroy, log via tag, write via handle (two configured handles and the handle named root), '
+        'ALL operation sequences up to length %d over {Refresh(valid sync A), Refresh(valid async B), Refresh(invalid early), Refresh(invalid late: unconfigured handle), Refresh(invalid at the last step: bad property value), Refresh(invalid: the Start of a plugin fails), Destroy, log via tag, write via handle (two configured handles and the handle named root), '
         'register tag, obtain handle} plus random sequences of length 8-20; every call under recover and a 3 s watchdog; observable per operation: ok/err, where the event/bytes landed '
         '(sink of A, sink of B, console, nowhere), registered/refused, panic, timeout; non-trivial = the sequence contains a valid Refresh and a log/write' % L,
         keep_empty=False, timeout=6000)
     if res:
         mo, io = res
-        bad = [(c, o) for c, o in zip(cases, io) if 'panic' in o or 'timeout' in o or 'nowhere' in o]
+        bad = [(c, o) for c, o in zip(cases, io) if 'panic' in o or ('timeout' in o and 'abandoned' not in o) or 'nowhere' in o]
         run.obligations += 1
         if bad:
             for c, o in bad[:2]:
